@@ -116,10 +116,10 @@ class Gen:
         r, p = self.r, self.p
         choices = [(2.0, "log"), (1.0, "def"), (0.8, "assign")]
         if depth > 0:
-            choices += [(1.2, "if"), (p["loops"], "for"), (p["loops"] * 0.5, "while"), (p["errors"], "try"), (p["funcs"], "func"), (p["funcs"] * 0.5, "outerupd"), (p["errors"] * 0.4 + p["funcs"] * 0.15, "retfunc"),
+            choices += [(1.2, "if"), (p["loops"], "for"), (p["loops"] * 0.5, "while"), (p["errors"], "try"), (p["funcs"], "func"), (p["funcs"] * 0.5, "outerupd"), (p["funcs"] * 0.3 + p["loops"] * 0.15, "loopshadowfn"), (p["errors"] * 0.4 + p["funcs"] * 0.15, "retfunc"),
                         (p["comps"], "comp"), (p["alias"], "alias"), (p["calls"], "call"), (p["calls"] * 0.6 + p["alias"] * 0.2, "method")]
         if ctx["loop"]:
-            choices += [(p["exits"], "break"), (p["exits"], "continue"), (p["exits"] * 0.6, "tryexit")]
+            choices += [(p["exits"], "break"), (p["exits"], "continue"), (p["exits"] * 0.6, "tryexit"), (p["exits"] * 0.5, "calleeexit")]
         elif ctx["func"]:
             choices += [(p["exits"] * 0.4, "tryexit")]
         if ctx["func"]:
@@ -221,6 +221,21 @@ class Gen:
                     fin.append("error 'in-finally'")
                 s += " finally " + "; ".join(fin)
             return [s + " end"]
+        if k == "calleeexit":
+            # a break / continue that leaves a function called from inside a loop: an error of the callee, never an exit of the caller's loop
+            f, a = self.fresh("f"), self.fresh("a")
+            ex = r.choice(["break", "continue"])
+            body = r.choice(["if %s %% 2 == %d then %s; %s" % (a, r.choice([0, 1]), ex, a), "%s; %s" % (ex, a), "if %s > 2 then do append(log, 44); %s end; %s * 2" % (a, ex, a)])
+            return ["def %s(%s) do %s end" % (f, a, body), "append(log, do %s(%s) catch all -5 end)" % (f, self.intexpr(ctx, 1)), "append(log, 45)"]
+        if k == "loopshadowfn":
+            # inside a function, a loop whose variable has the name of a variable of an enclosing scope: after the loop the name means the outer
+            # variable again (reads and assignments), and the loop leaves no binding in the function's scope
+            v, f, a, g = self.fresh("v"), self.fresh("f"), self.fresh("a"), self.fresh("f")
+            loop = r.choice(["for %s in [1, 2] do append(log, %s) end" % (v, v), "for %s in [1, 2, 3] do if %s == 2 then break end" % (v, v),
+                             "append(log, [%s * 2 for %s in [4, 5]])" % (v, v), "for [%s, zz] in [[7, 8]] do append(log, %s + zz) end" % (v, v)])
+            after = r.choice(["%s = %s + %s" % (v, v, a), "%s += %s" % (v, a), "%s(); append(log, %s)" % (g, v), "append(log, %s)" % v])
+            return ["def %s = %s" % (v, self.intexpr(ctx, 1)), "def %s() do %s = %s + 100; %s end" % (g, v, v, v),
+                    "def %s(%s) do %s; %s; %s end" % (f, a, loop, after, v), "append(log, %s(%d))" % (f, r.randint(1, 5)), "append(log, %s)" % v]
         if k == "retfunc":
             # a function whose body block consists of one return statement and carries the catch / finally parts itself
             f, a = self.fresh("f"), self.fresh("a")
